@@ -224,6 +224,13 @@ def _ctx_kwargs(d, ctx):
 def build_side(side, ctx: Ctx):
     """A derived table of another source: {"src": name, "hist": [...], ["alias": bool]}"""
     sub = Ctx(ctx.built, ctx.pool)
+    if "at" in side:
+        # the main table after ``at`` events, aliased (shares its verb nodes with the main table)
+        tbl = ctx.tables[side["at"]] >> pdt.alias(side["alias"] if isinstance(side.get("alias"), str) else None)
+        sub.tables.append(tbl)
+        for ev in side.get("hist", []):
+            sub.tables.append(apply_event(sub.tables[-1], ev, sub))
+        return sub.tables[-1], sub
     tbl = ctx.sources[side["src"]]
     if side.get("alias"):
         tbl = tbl >> pdt.alias(side["alias"] if isinstance(side["alias"], str) else None)
@@ -289,6 +296,14 @@ def apply_event(tbl, ev, ctx: Ctx):
     if k == "transfer":
         # materialise the current table as a fresh source and transfer references
         df = tbl >> pdt.export(pdt.Polars())
+        # a column without any value comes back from SQL without a type; the materialised copy gets
+        # the declared one (a user-defined `materialize` verb would create the table from the schema)
+        for cname in df.columns:
+            if df.schema[cname] == pl.Null:
+                try:
+                    df = df.with_columns(pl.col(cname).cast(tbl[cname].dtype().to_polars()))
+                except Exception:  # noqa: BLE001
+                    pass
         back = None
         if len(ev) > 1 and ev[1] == "rot" and len(df.columns) > 1:
             # ["transfer", "rot"]: the materialised table has its own history - it is stored with
